@@ -42,7 +42,9 @@ Proof. reflexivity. Qed.
 
 Theorem clone_and_optim_track_like_original : forall s b k,
   snd (step s (CloneTrack b)) = snd (step s (Track b))
-  /\ fst (step s (CloneTrack b)) = s /\ fst (step s (Optim k b)) = s.
+  /\ fst (step s (CloneTrack b)) = s
+  /\ params (fst (step s (Optim k b))) = params s /\ act (fst (step s (Optim k b))) = act s
+  /\ fst (step s (Optim k b)) = fst (step s (Track b)).
 Proof. intros. repeat split. Qed.
 
 (** cache coherence: a cached reading is always the reading of the last recorded beam *)
@@ -93,6 +95,8 @@ Proof.
   - (* Read *) destruct (nth d (cache s) None) eqn:Hc; cbn; [exact Hs|].
     intros d' t. cbn. rewrite nth_set_nth. destruct (Nat.eqb_spec d d') as [<-|Hne]; [|apply Hs].
     destruct (Nat.ltb d (length (cache s))); [tauto|]. rewrite Hc. discriminate.
+  - (* Optim *) intros d t. cbn. rewrite nth_drop_cache, nth_record.
+    destruct (nth d (act s) false); [discriminate|]. cbn. apply Hs.
 Qed.
 
 Lemma run_inv s ops : cache_inv s -> cache_inv (fst (run s ops)).
@@ -122,8 +126,10 @@ Proof.
 Qed.
 
 Theorem only_track_changes_recorded : forall s o,
-  (forall b, o <> Track b) -> recd (fst (step s o)) = recd s.
+  (forall b, o <> Track b) -> (forall k b, o <> Optim k b) -> recd (fst (step s o)) = recd s.
 Proof.
-  intros s o Hn. destruct o; cbn; try reflexivity; [exfalso; eapply Hn; reflexivity|].
-  destruct (nth d (cache s) None); reflexivity.
+  intros s o Hn Ho. destruct o; cbn; try reflexivity.
+  - exfalso; eapply Hn; reflexivity.
+  - destruct (nth d (cache s) None); reflexivity.
+  - exfalso; eapply Ho; reflexivity.
 Qed.
